@@ -46,12 +46,6 @@ def run_on(root, prop):
     mod = importlib.import_module(prop.lower())
     importlib.reload(mod)
     buf = io.StringIO()
-    ev_backup = None
-    evp = os.path.join(VERIF, "evidence", prop + ".json")
-    if os.path.exists(evp):
-        with open(evp) as fh:
-            ev_backup = fh.read()
-    vdir = os.path.join(VERIF, "evidence", "violations", prop)
     try:
         with contextlib.redirect_stdout(buf):
             ctx = common.Ctx(tier="quick", repo=root)
@@ -65,13 +59,7 @@ def run_on(root, prop):
         known = [l for l in lines if l.startswith("KNOWN-FINDING")]
         return rc, new, known, out
     finally:
-        # evidence belongs to runs against /repo itself: restore it
-        if ev_backup is not None:
-            with open(evp, "w") as fh:
-                fh.write(ev_backup)
-        if os.path.isdir(vdir):
-            for f in os.listdir(vdir):
-                os.unlink(os.path.join(vdir, f))
+        pass
 
 
 def run_mutants(mutants, props=None, verbose=True):
